@@ -25,12 +25,27 @@ func init() {
 				"Line (from its line parameter or the lexer's current line) and TemplatePath (from t.Name). (C12.early) in the parser, a line number handed to a constructor is read before any nested " +
 				"body (itemList) is parsed on that path, so multi-line constructs carry the line of their opening action. (C12.pos) every panic reachable from Execute is raised through NodeBase.errorf " +
 				"(and so carries file and line); functions that panic with a bare error are enumerated. (C12.stream) outside executeTry (and exec's Discard) nothing replaces the output Writer, so output " +
-				"produced before a failing action has already been written. (C12.piped) every dereference of a piped-value pointer (a *reflect.Value parameter or Arguments.pipedVal) lies where the pointer is known to be non-nil, so a '_' placeholder without a piped value is an error, not a nil dereference.",
+				"produced before a failing action has already been written. (C12.piped) every dereference of a piped-value pointer (a *reflect.Value parameter or Arguments.pipedVal) lies where the pointer is known to be non-nil, so a '_' placeholder without a piped value is an error, not a nil dereference. (C12.div) every integer / and % whose divisor is not a non-zero constant lies where the divisor is known to be non-zero. (C12.assert) every unchecked assertion of a Node to a concrete node type lies where n.Type() is known to be that type's constant — by a positive test, or because every other type the parser admits at that place (derived from the parser's own tests around the append to an assignment's target list; declarations narrowed to identifier/underscore, itself an obligation on the parser) was ruled out. (C12.set) reflect.Value.Set is reached only where CanSet, the value's validity and AssignableTo are known true, SetMapIndex only where the map is non-nil and key and value fit the map's key and element types. (C12.call) reflect.Value.Call is reached only where the callee is known to be a non-nil function (its kind tested by the function or by every caller). (C12.iface) an unchecked v.Interface().(T) lies behind v.Type().Implements(<T>) for an interface T, and for a concrete T behind a Convert to T's reflect.Type or a test of type identity.",
 			NotDecided:  "that the recorded line is the action's own line for multi-line actions (lexer look-ahead); errors returned as a second result by reflected user functions (dropped by the call path: observed, not decided); writer errors.",
 			Assumptions: []string{"panics raised inside the standard library's reflect package are strings or runtime errors"},
 			Trusted:     commonTrusted,
 		},
 		Mutants: []Mutant{
+			{Name: "integer division by zero unguarded (original defect)", File: "eval.go", Old: "\t\t\t\tif toInt(right) == 0 {\n\t\t\t\t\tnode.Right.errorf(\"division by zero\")\n\t\t\t\t}\n", New: "", Rule: "C12.div"},
+			{Name: "modulo by zero unguarded for unsigned operands (original defect)", File: "eval.go", Old: "\t\t} else if isUint(kind) {\n\t\t\tif toUint(right) == 0 {\n\t\t\t\tnode.Right.errorf(\"modulo by zero\")\n\t\t\t}\n\t\t}\n", New: "\t\t}\n", Rule: "C12.div"},
+			{Name: "executeSet asserts '_' to *FieldNode (original defect)", File: "eval.go", Old: "\tif typ == NodeUnderscore {\n\t\treturn // the value is discarded\n\t}\n", New: "", Rule: "C12.assert"},
+			{Name: "declaration of '_' asserted to *IdentifierNode", File: "eval.go", Old: "\t\t\tif set.Left[i].Type() != NodeUnderscore {\n\t\t\t\tst.variables[set.Left[i].(*IdentifierNode).Ident] = value\n\t\t\t}", New: "\t\t\tst.variables[set.Left[i].(*IdentifierNode).Ident] = value", Rule: "C12.assert"},
+			{Name: "parser admits index expressions as assignment targets", File: "parse.go", Old: "\t\t\tcase NodeField, NodeChain, NodeIdentifier, NodeUnderscore:\n\t\t\t\tleft = append(left, operand)", New: "\t\t\tcase NodeField, NodeChain, NodeIdentifier, NodeUnderscore, NodeIndexExpr:\n\t\t\t\tleft = append(left, operand)", Rule: "C12.assert"},
+			{Name: "parser lets fields be declared with :=", File: "parse.go", Old: "\t\t\t\tif operand.Type() != NodeIdentifier && operand.Type() != NodeUnderscore {", New: "\t\t\t\tif operand.Type() == NodeChain {", Rule: "C12.assert"},
+			{Name: "field assigned without CanSet (original defect)", File: "eval.go", Old: "\t\tif !value.CanSet() {\n\t\t\tleft.errorf(\"field %q can't be assigned to (the struct is not addressable or the field is unexported)\", fields[lef])\n\t\t}\n", New: "", Rule: "C12.set"},
+			{Name: "field assigned without the assignability test (original defect)", File: "eval.go", Old: "\t\tif !right.IsValid() || !right.Type().AssignableTo(value.Type()) {", New: "\t\tif !right.IsValid() {", Rule: "C12.set"},
+			{Name: "entry of a nil map assigned (original defect)", File: "eval.go", Old: "\t\tif value.IsNil() {\n\t\t\tleft.errorf(\"can't assign to key %q of a nil map\", fields[lef])\n\t\t}\n", New: "", Rule: "C12.set"},
+			{Name: "map element tested against the key type", File: "eval.go", Old: "\t\tif right.IsValid() && !right.Type().AssignableTo(value.Type().Elem()) {", New: "\t\tif right.IsValid() && !right.Type().AssignableTo(value.Type().Key()) {", Rule: "C12.set"},
+			{Name: "nil function called (original defect)", File: "eval.go", Old: "\tif baseExpr.Kind() == reflect.Func && baseExpr.IsNil() {\n\t\treturn reflect.Value{}, errors.New(\"base of call expression is a nil function\")\n\t}\n", New: "", Rule: "C12.call"},
+			{Name: "call expression on a value whose kind was not tested", File: "eval.go", Old: "\t\tif baseExpr.Kind() != reflect.Func {\n\t\t\tnode.errorf(\"node %q is not func kind %q\", node.BaseExpr, getTypeString(baseExpr))\n\t\t}\n", New: "", Rule: "C12.call"},
+			{Name: "assignable is taken for identical before asserting to Func (original defect)", File: "eval.go", Old: "baseExpr.Convert(funcType).Interface().(Func)", New: "baseExpr.Interface().(Func)", Rule: "C12.iface"},
+			{Name: "safe writer recognised by assignability", File: "eval.go", Old: "\t\t\tif term.Type() == safeWriterType {", New: "\t\t\tif safeWriterType.AssignableTo(term.Type()) {", Rule: "C12.iface"},
+			{Name: "Renderer asserted after testing for another interface", File: "eval.go", Old: "\t\t\t\t\tif v.Type().Implements(rendererType) {", New: "\t\t\t\t\tif v.Type().Implements(stringerType) {", Rule: "C12.iface"},
 			{Name: "'_' without a piped value dereferences nil in evaluateArgs (original defect)", File: "eval.go", Old: "\t\t\tif pipedArg == nil {\n\t\t\t\treturn nil, fmt.Errorf(\"argument for position %d in %s is a '_' placeholder, but there is no piped value\", slot, fnType)\n\t\t\t}\n\t\t\tterm = *pipedArg", New: "\t\t\tterm = *pipedArg", Rule: "C12.piped"},
 			{Name: "'_' without a piped value dereferences nil in Arguments.Get (original defect)", File: "func.go", Old: "\t\t\tif a.pipedVal == nil {\n\t\t\t\te.errorf(\"'_' placeholder used without a piped value\")\n\t\t\t}\n", New: "", Rule: "C12.piped"},
 			{Name: "validity guard before formatting the type dropped (agent seed C12/2)", File: "eval.go", Old: "\tif !term.IsValid() {\n\t\tnode.errorf(\"base expression of command pipe node is invalid value\")\n\t}\n", New: "", Rule: "C12.report"},
@@ -53,6 +68,10 @@ func init() {
 
 func runC12(c *an.Ctx) {
 	c12piped(c)
+	c12div(c)
+	c12assert(c)
+	c12set(c)
+	c12call(c)
 	p := c.P
 	info := p.Jet.TypesInfo
 	eval, parse := p.Eval(), p.Parse()
@@ -686,14 +705,74 @@ func c12report(c *an.Ctx, eval, parse map[*an.Fn]bool) {
 		if len(uses) == 0 {
 			continue
 		}
-		pr := p.ProbeFn(f, targets, an.Hooks{})
+		// which definition reaches the report: a value re-defined by something that yields a valid value whenever
+		// its (valid) operand is one — v.Field(i), v.Index(i), or a module function returning only such values
+		// or its own parameter (the field-path walker) — is valid by construction
+		validNow := func(x *an.Explorer, e ast.Expr, st *an.State) bool {
+			id, ok := an.Unparen(e).(*ast.Ident)
+			if !ok {
+				return false
+			}
+			if st.Get("ev:"+id.Name) == "valid" {
+				return true
+			}
+			for k, v := range st.Facts {
+				pk := an.PlainKey(k)
+				if v && (pk == id.Name+".IsValid()" || strings.HasSuffix(pk, " == "+id.Name+".Kind()") && !strings.HasPrefix(pk, "reflect.Invalid")) {
+					return true
+				}
+			}
+			for k := range st.Regs {
+				if strings.HasPrefix(an.PlainKey(k), "eq:"+id.Name+".Kind()") {
+					return true
+				}
+			}
+			return false
+		}
+		pr := p.ProbeFn(f, targets, an.Hooks{PreAssign: func(x *an.Explorer, lhs, rhs ast.Expr, stmt ast.Node, st *an.State) {
+			id, ok := an.Unparen(lhs).(*ast.Ident)
+			if !ok || !evaluated[an.ObjOf(info, id)] {
+				return
+			}
+			if as, ok := stmt.(*ast.AssignStmt); ok && len(as.Lhs) > 1 && len(as.Rhs) == 1 {
+				if an.Unparen(as.Lhs[0]) != ast.Expr(id) {
+					return
+				}
+				rhs = as.Rhs[0] // v, err = f(…)
+			}
+			valid := false
+			if rhs != nil {
+				if call, ok := an.Unparen(rhs).(*ast.CallExpr); ok {
+					switch name := an.CalleeName(info, call); name {
+					case "(reflect.Value).Field", "(reflect.Value).Index", "(reflect.Value).Addr":
+						valid = true
+					default:
+						if g := p.FnByObj[an.Callee(info, call)]; g != nil && !isEvalCall(name) {
+							if idx, ok := c12validPreserving(g); ok {
+								valid = true
+								for _, i := range idx {
+									if i >= len(call.Args) || !validNow(x, call.Args[i], st) {
+										valid = false
+									}
+								}
+							}
+						}
+					}
+				}
+			}
+			if valid {
+				st.Set("ev:"+id.Name, "valid")
+			} else {
+				st.Set("ev:"+id.Name, "")
+			}
+		}})
 		c.States += pr.X.Visited
 		for _, u := range uses {
 			n++
 			key := f.Name + "/" + u.recv.Name + ".Type()"
 			ok := len(pr.At[u.report]) > 0
 			for _, st := range pr.At[u.report] {
-				valid := false
+				valid := st.Get("ev:"+u.recv.Name) == "valid" // re-defined by something that yields a valid value
 				for k, v := range st.Facts {
 					pk := an.PlainKey(k)
 					if v && (pk == u.recv.Name+".IsValid()" || strings.HasSuffix(pk, " == "+u.recv.Name+".Kind()") && !strings.HasPrefix(pk, "reflect.Invalid")) {
@@ -791,4 +870,64 @@ func recoveredVars(p *an.Prog, fn *an.Fn) (map[types.Object]bool, recoverArms) {
 		})
 	}
 	return recVars, arms
+}
+
+// c12validPreserving: every return of g hands back, as its first result, either the zero Value together with
+// a non-nil error, or a variable of g that is only ever one of g's parameters, v.Field(i), v.Index(i),
+// v.Addr() or v.Elem() (C06.nil field-path: only after IsNil() was false).  The result is then valid
+// whenever the returned parameters (their indexes are returned) were.
+func c12validPreserving(g *an.Fn) ([]int, bool) {
+	if g.Body == nil || g.Sig == nil || g.Sig.Results().Len() != 2 || an.TypeName(g.Sig.Results().At(0).Type()) != "reflect.Value" {
+		return nil, false
+	}
+	info := g.Info()
+	ok := true
+	var params []int
+	ast.Inspect(g.Body, func(n ast.Node) bool {
+		if _, isLit := n.(*ast.FuncLit); isLit {
+			return false
+		}
+		ret, isRet := n.(*ast.ReturnStmt)
+		if !isRet {
+			return true
+		}
+		if len(ret.Results) != 2 {
+			ok = false
+			return true
+		}
+		r0 := an.Unparen(ret.Results[0])
+		if cl, isCl := r0.(*ast.CompositeLit); isCl && len(cl.Elts) == 0 {
+			if tv, has := info.Types[ret.Results[1]]; has && tv.IsNil() {
+				ok = false // zero value without an error
+			}
+			return true
+		}
+		id, isId := r0.(*ast.Ident)
+		if !isId {
+			ok = false
+			return true
+		}
+		obj := an.ObjOf(info, id)
+		if i, isParam := an.IsParam(g, obj); isParam {
+			params = append(params, i)
+		}
+		for _, d := range an.LocalDefs(g, obj) {
+			if d == nil {
+				ok = false
+				continue
+			}
+			call, isCall := an.Unparen(d).(*ast.CallExpr)
+			if !isCall {
+				ok = false
+				continue
+			}
+			switch an.CalleeName(info, call) {
+			case "(reflect.Value).Field", "(reflect.Value).Index", "(reflect.Value).Addr", "(reflect.Value).Elem":
+			default:
+				ok = false
+			}
+		}
+		return true
+	})
+	return params, ok
 }
